@@ -33,7 +33,7 @@ func init() {
 		Run: c11Run,
 		Floors: func(m *Merged, tier string) []string {
 			var u []string
-			for _, c := range []string{"layout_negative_key", "layout_zero_key", "layout_maxkey_254", "layout_maxkey_255", "layout_maxkey_256", "layout_big_key", "layout_undefined_mode", "layout_regvarandop", "layout_prepopulated_then_regvarandop", "fetcher_slice", "fetcher_map", "registrations_checked", "weighted_sums", "ident_probes", "pair_probes", "bindings_with_unregistered_extras"} {
+			for _, c := range []string{"layout_negative_key", "layout_zero_key", "layout_maxkey_254", "layout_maxkey_255", "layout_maxkey_256", "layout_big_key", "layout_undefined_mode", "layout_regvarandop", "layout_prepopulated_then_regvarandop", "fetcher_slice", "fetcher_map", "registrations_checked", "weighted_sums", "ident_probes", "pair_probes", "bindings_with_unregistered_extras", "late_explicit_key_probes"} {
 				if m.C(c) == 0 {
 					u = append(u, c+" = 0")
 				}
@@ -467,6 +467,52 @@ func c11Run(w *W, idx int) {
 				if o.Panic != nil || o.Err != nil || !valEq(o.V, v.val.norm) {
 					w.Fail("wrong-value-delivered/"+v.val.typ, "%s = %s, expected %s (bound %s value %v, optimize=%v)\n%s", src, o, valText(v.val.norm), v.val.typ, v.val.raw, optimize, layoutDesc)
 				}
+			}
+		}
+		// Late registration with an explicit key: VariableKeyMap is a public map, so a name can be added by a plain map
+		// write after contexts have already been created from this Config (ctxProbe above). Contexts created afterwards
+		// must serve the new name as well - both fetcher kinds, keys above the old maximum, below the old minimum, across 255.
+		if len(cc.VariableKeyMap) > 0 && len(intVars) > 0 {
+			used := map[eval.VariableKey]bool{}
+			for _, k := range cc.VariableKeyMap {
+				used[k] = true
+			}
+			cands := []int{maxK + 1, maxK + 40, minK - 1, 255, 256, 300}
+			key := -40000
+			for _, c := range cands[r.Intn(len(cands)):] {
+				if c > -30000 && c < 32000 && !used[eval.VariableKey(c)] {
+					key = c
+					break
+				}
+			}
+			if key != -40000 {
+				const late = "late_explicit_key"
+				cc.VariableKeyMap[late] = eval.VariableKey(key)
+				lateVal := int64(r.Intn(1000) + 7)
+				vals2 := map[string]interface{}{late: lateVal}
+				for k, v := range vals {
+					vals2[k] = v
+				}
+				a := intVars[r.Intn(len(intVars))]
+				for _, src := range []string{fmt.Sprintf("(ident %s)", late), fmt.Sprintf("(- %s %s)", late, a.name)} {
+					want := lateVal
+					if src[1] == '-' {
+						want = lateVal - a.val.norm.(int64)
+					}
+					e, co := compileGuard(cc, src)
+					w.Evals++
+					w.Inc("late_explicit_key_probes")
+					if co.Panic != nil || co.Err != nil {
+						w.Fail("late-explicit-key/compile", "Compile(%s) gave %s after %q was added with explicit key %d\n%s", src, co, late, key, layoutDesc)
+						continue
+					}
+					o := guard(func() (eval.Value, error) { return e.Eval(eval.NewCtxFromVars(cc, vals2)) })
+					w.Evals++
+					if o.Panic != nil || o.Err != nil || !valEq(o.V, want) {
+						w.Fail("wrong-value-delivered/late-explicit-key", "%s = %s, expected %d: %q was added to VariableKeyMap with explicit key %d after a context had been created from the Config (old key range %d..%d)\n%s", src, o, want, late, key, minK, maxK, layoutDesc)
+					}
+				}
+				delete(cc.VariableKeyMap, late)
 			}
 		}
 	}
